@@ -291,5 +291,7 @@ func gen(g *hx.Gen) {
 	}
 
 	genLarge(g)
+	genAsym(g)
+	genValueBounds(g)
 	genSort(g)
 }
